@@ -68,6 +68,13 @@ def gen_inputs(ctx):
                 s = "/".join(["m"] + toks)
                 parse.append((s, ("fused-blank", pos)))
                 bypath.append((s, ("fused-blank", pos)))
+    # more than one hardened marker on a component
+    Q = chr(39)
+    for tok in ("44" + Q * 2, "44h" + Q, "0" + Q + "h", "5hh", "7" + Q * 3, "0" + Q * 2, "1h" + Q + "h", Q, "h", Q * 2):
+        for pre, post in (([], []), (["0"], []), (["1" + Q], ["2"])):
+            s = "/".join(["m"] + pre + [tok] + post)
+            parse.append((s, ("double-marker", tok)))
+            bypath.append((s, ("double-marker", tok)))
     for s in ("m /1", "m\t/0'", "m/1/2h\n", " m/1", "m/1 ", "m/ 1", "m/1/ 2 /3"):
         parse.append((s, ("blank-placement", s)))
         bypath.append((s, ("blank-placement", s)))
